@@ -176,6 +176,65 @@ func enumC14(env *engine.Env, yield func(any) bool) {
 			}
 		}
 	}
+	if env.Thorough() {
+		// numeric ordering over a larger alphabet (one- to three-digit parts, 9/10/11 and 99/100 boundaries)
+		var big []string
+		nums := []string{"0", "1", "2", "9", "10", "11", "99", "100"}
+		for _, a := range nums {
+			for _, b := range nums {
+				for _, c := range nums {
+					big = append(big, a+"."+b+"."+c)
+				}
+			}
+		}
+		for i, x := range big {
+			for j, y := range big {
+				// pairs that differ in one part, or whose order is decided by an earlier part against the later ones
+				if i == j || !c14Interesting(x, y) {
+					continue
+				}
+				w := -1
+				if i > j {
+					w = 1
+				}
+				if !yield(C14Case{Part: "order", A: VerCfg{Version: x}, B: VerCfg{Version: y}, Want: w, Why: "major.minor.patch orders numerically"}) {
+					return
+				}
+			}
+		}
+		// prerelease before release under every combination of the other components, both spellings
+		for _, b := range bases3 {
+			for _, p := range c14Pres[1:] {
+				for _, rel := range []string{"", "1", "2", "0"} {
+					for _, meta := range []string{"", "git", "001"} {
+						for _, ep := range []string{"", "1"} {
+							for _, v := range []string{"", "v"} {
+								a := VerCfg{Version: v + b, Pre: p, Release: rel, Meta: meta, Epoch: ep}
+								r := VerCfg{Version: v + b, Release: rel, Meta: meta, Epoch: ep}
+								if !yield(C14Case{Part: "order", A: a, B: r, Want: -1, Why: "a prerelease sorts before its release"}) {
+									return
+								}
+							}
+						}
+					}
+				}
+				if !yield(C14Case{Part: "order", A: VerCfg{Version: b + "-" + p}, B: VerCfg{Version: b}, Want: -1, Why: "a prerelease (embedded in the version string) sorts before its release"}) {
+					return
+				}
+			}
+		}
+		// one- and two-part versions against their own prereleases (the release is normalised to three parts)
+		for _, b := range c14Bases() {
+			for _, p := range c14Pres[1:] {
+				if !yield(C14Case{Part: "order", A: VerCfg{Version: b + "-" + p}, B: VerCfg{Version: b}, Want: -1, Why: "a prerelease (embedded in the version string) sorts before its release"}) {
+					return
+				}
+				if !yield(C14Case{Part: "order", A: VerCfg{Version: b, Pre: p}, B: VerCfg{Version: b}, Want: -1, Why: "a prerelease sorts before its release"}) {
+					return
+				}
+			}
+		}
+	}
 	// order: epochs
 	epochs := []string{"", "1", "2", "10"}
 	hi := []VerCfg{{Version: "10.10.10"}, {Version: "10.10.10", Release: "9"}, {Version: "2.0.0", Meta: "git"}}
@@ -193,6 +252,31 @@ func enumC14(env *engine.Env, yield func(any) bool) {
 			}
 		}
 	}
+}
+
+// c14Interesting: x and y differ in exactly one part, or the first differing part decides against all later parts.
+func c14Interesting(x, y string) bool {
+	a, b := strings.Split(x, "."), strings.Split(y, ".")
+	diff, first := 0, -1
+	for i := range a {
+		if a[i] != b[i] {
+			diff++
+			if first < 0 {
+				first = i
+			}
+		}
+	}
+	if diff == 1 {
+		return true
+	}
+	// e.g. 1.100.100 < 2.0.0: the later parts all point the other way
+	num := func(s string) int { n := 0; fmt.Sscanf(s, "%d", &n); return n }
+	for i := first + 1; i < len(a); i++ {
+		if (num(a[i]) > num(b[i])) == (num(a[first]) > num(b[first])) {
+			return false
+		}
+	}
+	return true
 }
 
 func verDoc(v VerCfg) model.MetaCfg {
